@@ -205,9 +205,10 @@ def r2_nobody_writes(ctx: Ctx) -> None:
             ctx.count("defaults")
             ctx.check(not isinstance(d, (ast.Dict, ast.List, ast.Set, ast.Call)) or (isinstance(d, ast.Call) and call_name(d) in ("frozenset", "tuple")),
                       f"{fn.where}:default {unparse(d)[:30]}", "a mutable default argument is created once per process and shared by every call")
-        for dec in fn.node.decorator_list:
-            dn = dotted(dec if not isinstance(dec, ast.Call) else dec.func) or ""
-            ctx.check(dn.split(".")[-1] not in ("cache", "lru_cache", "cached_property"), f"{fn.where}:@{dn}", "memoisation keeps results of one assembly alive for the next")
+    from ..caches import _memo_findings
+
+    for mf in _memo_findings(ctx):
+        ctx.fail(mf.construct, mf.detail)
     ctx.count("functions_scanned", n_funcs)
     ctx.floor("functions_scanned", 200)
     ctx.floor("stores", 66)
